@@ -254,8 +254,29 @@ def run(chk):
            'StripSpaces or at six confirmed sites', min_instances=6)
   sites = infix_searches(m, tt)
   seen_allowed = set()
+  # the rule is about what ParseFile computes: functions of parse.py that the
+  # parsing pipeline never reaches (helpers for tools) are listed, not judged
+  pipeline, todo_ = set(), ['ParseFile', 'EnactIncantations']
+  while todo_:
+    q_ = todo_.pop()
+    if q_ in pipeline:
+      continue
+    pipeline.add(q_)
+    for n_, f_ in m.funcs.items():
+      if n_ == q_ or n_.startswith(q_ + '.'):
+        for x in ast.walk(f_.node):
+          t_ = x.id if isinstance(x, ast.Name) else (x.attr if isinstance(x, ast.Attribute) else None)
+          if t_ and t_ not in pipeline and (t_ in m.funcs or t_ in m.classes):
+            todo_.append(t_)
+    if q_ in m.classes:
+      for n_ in m.funcs:
+        if n_.startswith(q_ + '.'):
+          todo_.append(n_)
   for fi, node, text, subject in sites:
     top = fi.qualname.split('.')[0]
+    if top not in pipeline:
+      chk.info('search %s in parse.%s: not reached from ParseFile, not judged' % (text, fi.qualname))
+      continue
     if fi.qualname in SCANNER or top in SCANNER:
       chk.ob('C15-R1', True, None, 'scanner search %s' % text, '', fi=fi, node=node,
              nontrivial=False)
